@@ -169,6 +169,8 @@ struct World {
   int64_t default_clock_step = 100;  // us per tick
   int64_t interrupt_at_tick = -1;
   bool thread_inv = false;
+  bool deadlock_check = false;
+  int deadlock_streak = 0;
   uint64_t switches = 0;
   uint64_t sw_hash = FNV0;
   std::map<sexp, int> thread_ids;
@@ -611,28 +613,36 @@ struct Capture {
   size_t consumed = 0;
   sexp port = nullptr;
 };
-static Capture g_out;
+static Capture g_out, g_err;
 
 static void capture_install(sexp ctx, sexp env) {
   g_out.f = open_memstream(&g_out.buf, &g_out.len);
+  g_err.f = open_memstream(&g_err.buf, &g_err.len);
   sexp_gc_var1(p);
   sexp_gc_preserve1(ctx, p);
   p = sexp_make_output_port(ctx, g_out.f, SEXP_FALSE);
   sexp_port_no_closep(p) = 1;
   sexp_set_parameter(ctx, env, sexp_global(ctx, SEXP_G_CUR_OUT_SYMBOL), p);
-  sexp_set_parameter(ctx, env, sexp_global(ctx, SEXP_G_CUR_ERR_SYMBOL), p);
   sexp_preserve_object(ctx, p);
   g_out.port = p;
+  // the error port is captured separately: it is not part of any transcript
+  // (error reports print object addresses)
+  p = sexp_make_output_port(ctx, g_err.f, SEXP_FALSE);
+  sexp_port_no_closep(p) = 1;
+  sexp_set_parameter(ctx, env, sexp_global(ctx, SEXP_G_CUR_ERR_SYMBOL), p);
+  sexp_preserve_object(ctx, p);
+  g_err.port = p;
   sexp_gc_release1(ctx);
 }
-static std::string capture_take(sexp ctx) {
-  if (!g_out.f) return "";
-  if (g_out.port) sexp_flush(ctx, g_out.port);
-  fflush(g_out.f);
-  std::string r(g_out.buf + g_out.consumed, g_out.len - g_out.consumed);
-  g_out.consumed = g_out.len;
+static std::string capture_take_from(sexp ctx, Capture& c) {
+  if (!c.f) return "";
+  if (c.port) sexp_flush(ctx, c.port);
+  fflush(c.f);
+  std::string r(c.buf + c.consumed, c.len - c.consumed);
+  c.consumed = c.len;
   return r;
 }
+static std::string capture_take(sexp ctx) { return capture_take_from(ctx, g_out); }
 
 // ---------------------------------------------------------------------------
 // Scheduler shim: the tick source. Calls the real SRFI-18 scheduler when it is
@@ -650,7 +660,9 @@ static bool proper_list(sexp ls, size_t* len, sexp* last) {
   }
   if (len) *len = n;
   if (last) *last = prev;
-  return ls == SEXP_NULL;
+  // the scheduler only ever tests sexp_pairp, so any non-pair terminates a queue (the paused
+  // list starts out as the globals vector's fill value, not '())
+  return !sexp_pointerp(ls) || !sexp_pairp(ls);
 }
 
 static void check_thread_queues(sexp ctx, sexp current, const char* when) {
@@ -732,8 +744,40 @@ static sexp sim_scheduler(sexp ctx, sexp self, sexp_sint_t n, sexp root_thread) 
   sexp res = ctx;
   if (W.real_sched) {
     if (W.thread_inv) check_thread_queues(ctx, ctx, "before");
+    if (W.thread_inv) {
+      unsigned char* ip = sexp_context_ip(ctx);
+      if (ip) { char nm[32]; snprintf(nm, sizeof nm, "preempt_op:%u", (unsigned)*ip); W.counters[nm]++; }
+      if (sexp_context_waitp(ctx)) W.counters["entry_while_waiting"]++;
+    }
     res = ((sexp_proc2)W.real_sched)(ctx, W.real_sched_op, n, root_thread);
     if (W.thread_inv) check_thread_queues(ctx, res, "after");
+    if (W.deadlock_check && sexp_contextp(res) && sexp_context_waitp(res) && sexp_context_refuel(res) > 0
+        && !sexp_pairp(sexp_global(ctx, SEXP_G_THREADS_FRONT))) {
+      // the only thread left is waiting: is there anything that can still wake somebody up?
+      bool can_wake = false;
+      auto waits_on_time_or_fd = [](sexp t) {
+        struct timeval tv = sexp_context_timeval(t);
+        if (tv.tv_sec != 0 || tv.tv_usec != 0) return true;
+        sexp e = sexp_context_event(t);
+        return e && (sexp_portp(e) || sexp_fixnump(e) || sexp_filenop(e));
+      };
+      if (waits_on_time_or_fd(res)) can_wake = true;
+      sexp paused = sexp_global(ctx, SEXP_G_THREADS_PAUSED);
+      if (paused) for (sexp l = paused; sexp_pairp(l); l = sexp_cdr(l))
+        if (sexp_contextp(sexp_car(l)) && waits_on_time_or_fd(sexp_car(l))) can_wake = true;
+      if (!can_wake) {
+        if (++W.deadlock_streak >= 3) {
+          char msg[160];
+          snprintf(msg, sizeof msg, "no runnable thread, no timed or descriptor waiter: thread %d waits forever (tick %llu)", W.tid(res), (unsigned long long)W.ticks);
+          W.violate("sched:lost-wakeup", msg);
+          finish_and_exit("deadlock");
+        }
+      } else {
+        W.deadlock_streak = 0;
+      }
+    } else {
+      W.deadlock_streak = 0;
+    }
     if (res != ctx) {
       W.switches++;
       int a = W.tid(ctx), b = W.tid(res);
@@ -876,7 +920,7 @@ static bool boot_context(const BootCfg& cfg, sexp* pctx, sexp* penv, std::string
 // ---------------------------------------------------------------------------
 // Plan execution
 
-struct StepResult { std::string out, res; bool exc = false; int64_t top_after = 0; uint64_t allocs = 0; };
+struct StepResult { std::string out, res, err; bool exc = false; int64_t top_after = 0; uint64_t allocs = 0; };
 static std::vector<StepResult> g_results;
 static int g_resfd = 1;
 static const js::Value* g_plan = nullptr;
@@ -897,7 +941,7 @@ static void emit_result(const char* status) {
   w.key("steps"); w.begin_arr();
   for (auto& s : g_results) {
     w.begin_obj();
-    w.kv("out", s.out); w.kv("res", s.res); w.kv("exc", s.exc); w.kv("top", s.top_after); w.kv("allocs", s.allocs);
+    w.kv("out", s.out); w.kv("res", s.res); if (!s.err.empty()) w.kv("err", s.err); w.kv("exc", s.exc); w.kv("top", s.top_after); w.kv("allocs", s.allocs);
     w.end_obj();
   }
   w.end_arr();
@@ -980,6 +1024,7 @@ static void configure_world(const js::Value& plan) {
     W.interrupt_at_tick = sc->geti("interrupt_at_tick", -1);
     W.tick_budget = sc->geti("tick_budget", 0);
     W.thread_inv = sc->getb("thread_inv", false);
+    W.deadlock_check = sc->getb("deadlock_check", false);
     W.sample_stack = sc->getb("sample_stack", false);
   }
   W.ev_full = plan.getb("trace", false);
@@ -1062,6 +1107,8 @@ static void run_plan(const js::Value& plan) {
       sr.allocs = W.nalloc - a0;
       W.gc_armed = false;
       sr.out = capture_take(ctx);
+      sr.err = capture_take_from(ctx, g_err);
+      if (sr.err.size() > 600) sr.err.resize(600);
       W.gc_armed = true;
       uint64_t h = fnv1a(FNV0, sr.out.data(), sr.out.size());
       h = fnv1a(h, sr.res.data(), sr.res.size());
